@@ -13,18 +13,23 @@ Proof. apply Ascii.eqb_eq. Qed.
 
 (* ---------- scanning one literal ---------- *)
 
+Lemma scan_pair q x : scan q (q :: q :: x) = match scan q x with Some n => Some (2 + n) | None => Some 1 end.
+Proof. cbn [scan]. now rewrite !ch_eqb_refl. Qed.
+Lemma scan_other q c x : ch_eqb c q = false -> scan q (c :: x) = option_map S (scan q x).
+Proof. intros E. cbn [scan]. now rewrite E. Qed.
+Lemma scan_close q rest : match rest with [] => True | d :: _ => ch_eqb d q = false end ->
+  scan q (q :: rest) = Some 1.
+Proof. intros Hr. cbn [scan]. rewrite ch_eqb_refl. destruct rest as [|d rest]; [reflexivity|]. now rewrite Hr. Qed.
+
 Lemma scan_lit q b rest :
   match rest with [] => True | d :: _ => ch_eqb d q = false end ->
   scan q (escape_body q b ++ q :: rest) = Some (S (length (escape_body q b))).
 Proof.
-  intros Hr. induction b as [|c b IH]; simpl.
-  - rewrite ch_eqb_refl. destruct rest as [|d rest]; [reflexivity|]. now rewrite Hr.
+  intros Hr. induction b as [|c b IH]; cbn [escape_body].
+  - now apply scan_close.
   - destruct (ch_eqb c q) eqn:E.
-    + apply ch_eqb_eq in E. subst c. simpl. rewrite !ch_eqb_refl.
-      destruct (escape_body q b ++ q :: rest) eqn:X.
-      * destruct (escape_body q b); discriminate.
-      * rewrite <- X, IH. reflexivity.
-    + simpl. rewrite E, IH. reflexivity.
+    + rewrite <- !app_comm_cons, scan_pair, IH. reflexivity.
+    + rewrite <- app_comm_cons, scan_other, IH by exact E. reflexivity.
 Qed.
 
 Lemma starts_ok_not q rest : is_quote q = true -> starts_ok rest = true ->
@@ -35,12 +40,17 @@ Proof.
   apply ch_eqb_eq in E. subst d. rewrite Hq in Hs. discriminate.
 Qed.
 
+Lemma find_lit_cons_quote c x n : is_quote c = true -> scan c x = Some n ->
+  find_lit (c :: x) = Some (0, S n).
+Proof. intros H1 H2. simpl. now rewrite H1, H2. Qed.
+
 Lemma find_lit_here q b rest : is_quote q = true -> starts_ok rest = true ->
   find_lit (render_lit q b ++ rest) = Some (0, length (render_lit q b)).
 Proof.
-  intros Hq Hs. unfold render_lit. cbn [app find_lit]. rewrite Hq.
-  rewrite <- app_assoc. cbn [app]. rewrite scan_lit by now apply starts_ok_not.
-  rewrite app_length. simpl. now rewrite Nat.add_1_r.
+  intros Hq Hs. unfold render_lit. rewrite <- app_comm_cons, <- app_assoc, <- app_comm_cons, app_nil_l.
+  rewrite (find_lit_cons_quote q _ (S (length (escape_body q b)))); auto.
+  - simpl. rewrite app_length. simpl. now rewrite Nat.add_1_r.
+  - apply scan_lit. now apply starts_ok_not.
 Qed.
 
 Lemma find_lit_code c x : no_quote c = true ->
@@ -62,6 +72,20 @@ Lemma find_lit_code_lit c q b rest : no_quote c = true -> is_quote q = true -> s
 Proof.
   intros Hc Hq Hs. rewrite find_lit_code, find_lit_here by assumption. now rewrite Nat.add_0_r.
 Qed.
+
+(* ---------- list surgery ---------- *)
+
+Lemma skipn_pre {A} (pre x : list A) : skipn (length pre) (pre ++ x) = x.
+Proof. induction pre; simpl; auto. Qed.
+Lemma firstn_pre {A} (pre x : list A) : firstn (length pre) (pre ++ x) = pre.
+Proof. induction pre; simpl; [now destruct x|]. now f_equal. Qed.
+Lemma skipn_pre2 {A} (pre c x : list A) : skipn (length pre + length c) (pre ++ c ++ x) = x.
+Proof. rewrite <- app_length, app_assoc. apply skipn_pre. Qed.
+Lemma firstn_pre2 {A} (pre c x : list A) : firstn (length pre + length c) (pre ++ c ++ x) = pre ++ c.
+Proof. rewrite <- app_length, app_assoc. apply firstn_pre. Qed.
+Lemma skipn_pre3 {A} (pre c l x : list A) :
+  skipn (length pre + length c + length l) (pre ++ c ++ l ++ x) = x.
+Proof. rewrite <- !app_length, !app_assoc. apply skipn_pre. Qed.
 
 (* ---------- placeholders ---------- *)
 
@@ -86,13 +110,13 @@ Proof.
   { destruct (NilEmpty.string_of_uint (Nat.to_uint k)); [reflexivity|discriminate]. }
   pose proof (NilEmpty.usu (Nat.to_uint k)) as U. rewrite E in U. simpl in U.
   injection U as U. pose proof (Unsigned.of_to k) as V. rewrite <- U in V. simpl in V.
-  pose proof (Unsigned.to_uint_nonnil k) as W. rewrite <- U in W. now apply W.
+  subst k. discriminate U.
 Qed.
 
 Lemma parse_dec k : parse_nat (dec k) = Some k.
 Proof.
   unfold parse_nat. destruct (dec k) eqn:E; [now apply dec_nonempty in E|]. rewrite <- E.
-  unfold dec, s. rewrite string_of_list_ascii_of_string, NilEmpty.usu. simpl. now rewrite Unsigned.of_to.
+  unfold dec, Str.s. rewrite string_of_list_ascii_of_string, NilEmpty.usu. simpl. now rewrite Unsigned.of_to.
 Qed.
 
 Lemma dq_quote : is_quote dq = true. Proof. reflexivity. Qed.
@@ -100,9 +124,10 @@ Lemma dq_quote : is_quote dq = true. Proof. reflexivity. Qed.
 (* the text between the quotes of a placeholder *)
 Lemma placeholder_body k : firstn (length (placeholder k) - 2) (skipn 1 (placeholder k)) = dec k.
 Proof.
-  unfold placeholder. cbn [length skipn]. rewrite app_length. simpl.
-  replace (S (length (dec k) + 1) - 2) with (length (dec k)) by lia.
-  now rewrite firstn_app, firstn_all, Nat.sub_diag, app_nil_r.
+  unfold placeholder. change (skipn 1 (dq :: dec k ++ [dq])) with (dec k ++ [dq]).
+  change (length (dq :: dec k ++ [dq])) with (S (length (dec k ++ [dq]))).
+  rewrite app_length. change (length [dq]) with 1.
+  replace (S (length (dec k) + 1) - 2) with (length (dec k)) by lia. apply firstn_pre.
 Qed.
 
 (* ---------- what follows a literal ---------- *)
@@ -144,20 +169,6 @@ Proof.
   destruct r as [|[[c q] b] r]; simpl; [auto|]. rewrite !andb_true_iff. intros [[[A B] _] D]. now rewrite A, B, D.
 Qed.
 
-(* ---------- list surgery ---------- *)
-
-Lemma skipn_pre {A} (pre x : list A) : skipn (length pre) (pre ++ x) = x.
-Proof. induction pre; simpl; auto. Qed.
-Lemma firstn_pre {A} (pre x : list A) : firstn (length pre) (pre ++ x) = pre.
-Proof. induction pre; simpl; [now destruct x|]. now f_equal. Qed.
-Lemma skipn_pre2 {A} (pre c x : list A) : skipn (length pre + length c) (pre ++ c ++ x) = x.
-Proof. rewrite <- app_length, app_assoc. apply skipn_pre. Qed.
-Lemma firstn_pre2 {A} (pre c x : list A) : firstn (length pre + length c) (pre ++ c ++ x) = pre ++ c.
-Proof. rewrite <- app_length, app_assoc. apply firstn_pre. Qed.
-Lemma skipn_pre3 {A} (pre c l x : list A) :
-  skipn (length pre + length c + length l) (pre ++ c ++ l ++ x) = x.
-Proof. rewrite <- !app_length, !app_assoc. apply skipn_pre. Qed.
-
 (* ---------- the masking loop ---------- *)
 
 Lemma mask_loop_spec : forall segs tail fuel pre strs first,
@@ -184,13 +195,19 @@ Proof.
     replace (pre ++ c ++ placeholder (length strs) ++ render r tail)
       with (((pre ++ c) ++ placeholder (length strs)) ++ render r tail) by (now rewrite <- !app_assoc).
     rewrite (IH tail fuel _ (strs ++ [render_lit q b]) false) by (auto; simpl in Hf; lia).
-    rewrite app_length. simpl. rewrite Nat.add_1_r, <- !app_assoc. reflexivity.
+    rewrite app_length. change (length [render_lit q b]) with 1. rewrite Nat.add_1_r, <- !app_assoc.
+    reflexivity.
 Qed.
 
-Lemma render_length segs tail : 2 * length segs <= length (render segs tail).
+Lemma render_lit_length q b : 2 <= length (render_lit q b).
+Proof. unfold render_lit. change (length (q :: escape_body q b ++ [q])) with (S (length (escape_body q b ++ [q]))).
+       rewrite app_length. change (length [q]) with 1. lia. Qed.
+
+Lemma render_length segs tail : length segs + length segs <= length (render segs tail).
 Proof.
-  induction segs as [|[[c q] b] r IH]; simpl; [lia|].
-  rewrite !app_length. unfold render_lit. simpl. rewrite app_length. simpl. lia.
+  induction segs as [|[[c q] b] r IH]; [simpl; lia|].
+  change (render (((c, q, b)) :: r) tail) with (c ++ render_lit q b ++ render r tail).
+  rewrite !app_length. pose proof (render_lit_length q b). simpl length. lia.
 Qed.
 
 Theorem mask_spec : forall segs tail, wf_line segs tail = true ->
@@ -257,10 +274,12 @@ Proof.
     cbn [render_with]. rewrite P, <- !app_assoc. reflexivity.
 Qed.
 
-Lemma render_masked_length k segs tail : 2 * length segs <= length (render_masked k segs tail).
+Lemma render_masked_length k segs tail : length segs + length segs <= length (render_masked k segs tail).
 Proof.
-  revert k. induction segs as [|[[c q] b] r IH]; intros k; simpl; [lia|].
-  rewrite !app_length. specialize (IH (S k)). unfold placeholder. simpl. rewrite app_length. simpl. lia.
+  revert k. induction segs as [|[[c q] b] r IH]; intros k; [simpl; lia|].
+  change (render_masked k (((c, q, b)) :: r) tail) with (c ++ placeholder k ++ render_masked (S k) r tail).
+  rewrite !app_length. specialize (IH (S k)). rewrite placeholder_lit.
+  pose proof (render_lit_length dq (dec k)). simpl length. lia.
 Qed.
 
 Theorem unmask_spec prep : keeps_literals prep ->
